@@ -182,8 +182,13 @@ PUSH_RULE = ("generated workspace: 1-4 files (0-8 lines over a small alphabet, 3
 
 
 def push_jobs(extra_quick, extra_thorough, nq=6000, nt=150000):
-    return [{'quick': ['push', 'seed={seed}', 'n=%d' % nq] + extra_quick,
-             'thorough': ['push', 'seed={seed}', 'n=%d' % nt] + extra_thorough}]
+    # the thorough tier splits its cases over six processes (seeds <seed>1 .. <seed>6: bin/check runs the jobs of a
+    # check side by side); the quick tier runs the first job only
+    jobs = [{'quick': ['push', 'seed={seed}', 'n=%d' % nq] + extra_quick,
+             'thorough': ['push', 'seed={seed}1', 'n=%d' % (nt // 6)] + extra_thorough}]
+    for k in range(2, 7):
+        jobs.append({'quick': None, 'thorough': ['push', 'seed={seed}%d' % k, 'n=%d' % (nt // 6)] + extra_thorough})
+    return jobs
 
 
 PUSH_TRUSTED = ["abstract file system RQ/Model/FS.lean stands for the kernel (lexical paths, no symlinks, atomic operations)",
